@@ -22,6 +22,9 @@ def run(F, X, rep):
     H.p6_no_blocking_under_lock(C, rep, "C14-L1")
     H.l2_no_shared_blocking_state(C, rep, "C14-L2")
     E.k_key_is_invoice_hash(C, rep, "C14-K")
+    # an HTLC is associated with the entry of its OWN hash: the invoice hash that keys the table equals the HTLC's hash
+    # before the entry is looked up or created
+    E.g_hash_gate(C, rep, "C14-G")
     S.w5_no_deletion_and_keys(C, rep, "C14-K")
     H.k_no_global_state(C, rep, "C14-K")
     R.a3_one_lifecycle_per_entry(C, rep, "C14-T")
